@@ -623,3 +623,185 @@ def target_initialize_element():
 
 def targets():      # noqa: F811
     return _targets_before_initialize() + [target_initialize_element()]
+
+
+
+_SCAN_REPRO = '''from string import ascii_lowercase, digits
+from pyimpspec.circuit.tokenizer import Tokenizer, Identifier
+text = %r
+legal = ascii_lowercase + digits + "_"      # what register_element allows after the first character of a symbol
+k = 1
+while k < len(text) and text[k] in legal:
+    k += 1
+try:
+    tokens = Tokenizer().process(text)
+except Exception as ex:
+    raise SystemExit(f"tokenising {text!r} raised {type(ex).__name__}: {ex} although it starts with the legal symbol {text[:k]!r}")
+assert isinstance(tokens[0], Identifier) and tokens[0].value == text[:k], (text, tokens[0], text[:k])
+'''
+
+
+def target_symbol_scan():
+    """Tokenizer.identifier_or_label in element position (previous token is not ':', '{' or ','): the Identifier token is the
+    first character plus the MAXIMAL run of the characters the registry allows in an element symbol (lower-case ASCII letters,
+    digits, '_' -- `_validate_element_symbol`, under contract next to this) -- so every symbol that can be registered is read back
+    as one token, and two symbols are split exactly where the next upper-case letter begins."""
+    import string as _string
+    from pyvc.symex import LoopSpec, Raised, State
+    from pyvc.values import ListV, fresh
+    from . import tokenizer as TK
+    from .c04 import _call
+    qual = "Tokenizer.identifier_or_label"
+    LEGAL = _string.ascii_lowercase + _string.digits + "_"
+
+    def legal(code):
+        return z3.Or(*[code == ord(c) for c in LEGAL])
+
+    def run(sess: Session):
+        ex = TK.make_executor(sess)
+        base = TK.scan_invariant(True)
+
+        def inv(ex_, st, entry, ghost):
+            me = st.loc["self"]
+            c1 = st.deref(st.deref(me).fields["_chars"])
+            c0 = entry.deref(entry.deref(me).fields["_chars"])
+            j = fresh("j", TK.I)
+            return z3.And(base(ex_, st, entry, ghost), z3.ForAll([j], z3.Implies(z3.And(c0.lo <= j, j < c1.lo), legal(z3.Select(c1.arr, j)))))
+        ex.loops[("Tokenizer.identifier_or_label", "char is not None and char in valid_chars")] = LoopSpec(
+            invariant=inv, variant=TK.scan_variant, modifies=["self._chars:window", "self._index", "self._value", "self._start", "char"], prepare=TK.prep_char)
+        st = State()
+        me, chars, toks = TK.new_tokenizer(st, nonempty=True)
+        # element position: no token yet, or the last token is none of Colon / LCurly / Comma
+        last = z3.Select(toks.arr, toks.hi - 1)
+        st.pc.append(z3.Or(toks.hi == toks.lo, z3.And(last != TK.KIND["Colon"], last != TK.KIND["LCurly"], last != TK.KIND["Comma"], last >= 1, last <= len(TK.TOKEN_CLASSES))))
+        first = z3.Select(chars.arr, chars.lo)
+        st.pc.append(z3.And(first >= ord("A"), first <= ord("Z")))
+        outs = _call(ex, qual, st, me)
+        n_norm = 0
+        for val, s1 in outs:
+            if isinstance(val, Raised):
+                # (Identifier.__post_init__ may refuse an empty text; not reachable here, but an allowed class -- C04's business)
+                continue
+            n_norm += 1
+            c1: ListV = s1.deref(s1.deref(me).fields["_chars"])
+            t1: ListV = s1.deref(s1.deref(me).fields["_tokens"])
+            j = fresh("j", TK.I)
+            sess.check("post", s1.pc, z3.And(c1.lo > chars.lo, c1.lo <= chars.hi, z3.BoolVal(c1.arr.eq(chars.arr))), 0, label="at least the first character is consumed, nothing but the input is looked at")
+            sess.check("post", s1.pc, z3.ForAll([j], z3.Implies(z3.And(chars.lo < j, j < c1.lo), legal(z3.Select(chars.arr, j)))), 0,
+                       label="every consumed character after the first is one the registry allows in a symbol")
+            sess.check("post", s1.pc, z3.Or(c1.lo == chars.hi, z3.Not(legal(z3.Select(chars.arr, c1.lo)))), 0,
+                       label="maximal: the scan stops only at the end or at a character the registry does not allow in a symbol")
+            sess.check("post", s1.pc, z3.And(t1.hi == toks.hi + 1, z3.Select(t1.arr, t1.hi - 1) == TK.KIND["Identifier"]), 0, label="exactly one Identifier token is appended")
+        sess.check("cover", [], z3.BoolVal(n_norm >= 1), 0, label=f"normal-exit paths={n_norm}")
+        for ob in sess.obligations:
+            m = getattr(ob, "_z3model", None)
+            if ob.status == "refuted" and m is not None and not ob.expect_refuted:
+                try:
+                    lo = m.eval(chars.lo, model_completion=True).as_long()
+                    hi = m.eval(chars.hi, model_completion=True).as_long()
+                    text = "".join(chr(m.eval(z3.Select(chars.arr, z3.IntVal(i)), model_completion=True).as_long()) for i in range(lo, min(hi, lo + 12)))
+                except Exception:      # noqa: BLE001
+                    continue
+                ob.replay = {"input": text, "repro": _SCAN_REPRO % (text,)}
+        for val, s1 in outs:
+            if not isinstance(val, Raised):
+                sess.check("canary", s1.pc, z3.BoolVal(False), 0, label="ensures-False", expect_refuted=True)
+                break
+    return (f"{TK.MOD}:{qual} [element symbols]", TK.MOD, qual, run)
+
+
+_targets_before_symbol_scan = targets
+
+
+def targets():      # noqa: F811
+    return _targets_before_symbol_scan() + [target_symbol_scan()]
+
+
+
+def target_validate_symbol():
+    """registry._validate_element_symbol: a symbol is accepted iff it is a non-blank string whose first character is an upper-case
+    ASCII letter and whose every later character is a lower-case ASCII letter, a digit or '_' -- the very alphabet the tokenizer's
+    element scan (target_symbol_scan) continues on.  The real function runs on a symbolic string: the character sets it builds
+    are CharSet stand-ins that record which set a character was tested against; both answers are explored."""
+    import string as _string
+    from pyvc import overload as O
+    MODR = "circuit/registry"
+
+    class CharSet:
+        def __init__(self, chars):
+            self.chars = frozenset(chars)
+
+        def __add__(self, other):
+            return CharSet(self.chars | (other.chars if isinstance(other, CharSet) else frozenset(other)))
+
+        def __radd__(self, other):
+            return CharSet(self.chars | frozenset(other))
+
+        def __contains__(self, ch):
+            return ch.member(self)
+
+        def __str__(self):
+            return "".join(sorted(self.chars))
+
+    def run(sess: Session):
+        fn = find_def(MODR, "_validate_element_symbol")
+        carried = [n.id for loop in ast.walk(fn) if isinstance(loop, (ast.For, ast.While)) for st_ in loop.body for n in ast.walk(st_)
+                   if isinstance(n, ast.Name) and isinstance(n.ctx, ast.Store)]
+        sess.check("frame", [], z3.BoolVal(not carried), fn.lineno, label="the per-character loop carries no state from one character to the next (so one generic character stands for all)")
+        want = {"first": frozenset(_string.ascii_uppercase), "later": frozenset(_string.ascii_lowercase + _string.digits + "_")}
+        outcomes = set()
+        for blank, first_in, later_in, n_later in itertools.product((False, True), (False, True), (False, True), (0, 1, 2)):
+            asked = []
+
+            class Ch(str):
+                def __new__(cls, role):
+                    o = str.__new__(cls, "?")
+                    o.role = role
+                    return o
+
+                def member(self, cs):
+                    asked.append((self.role, cs.chars))
+                    return first_in if self.role == "first" else later_in
+                __hash__ = str.__hash__
+
+            class Sym(str):
+                def strip(self, *a):
+                    return "" if blank else self
+
+                def __getitem__(self, k):
+                    if k == 0:
+                        return Ch("first")
+                    if isinstance(k, slice) and (k.start, k.stop, k.step) == (1, None, None):
+                        return [Ch("later") for _ in range(n_later)]
+                    raise O.Unsupported(f"symbol[{k!r}]")
+
+                def __iter__(self):
+                    raise O.Unsupported("iteration over the whole symbol")
+
+                def __eq__(self, other):
+                    return blank if other == "" and isinstance(other, str) and not isinstance(other, Sym) else NotImplemented
+                __hash__ = str.__hash__
+            ns = {"ascii_uppercase": CharSet(_string.ascii_uppercase), "ascii_lowercase": CharSet(_string.ascii_lowercase), "digits": CharSet(_string.digits),
+                  "ascii_letters": CharSet(_string.ascii_letters), "isinstance": isinstance, "str": str, "TypeError": TypeError, "ValueError": ValueError}
+            O.load(MODR, ["_validate_element_symbol"], ns)
+            try:
+                ns["_validate_element_symbol"](Sym("S"))
+                res = "accepted"
+            except ValueError:
+                res = "ValueError"
+            expect = "accepted" if (not blank and first_in and (later_in or n_later == 0)) else "ValueError"
+            tag = f"[blank={blank}, first in set={first_in}, later in set={later_in}, {n_later} later characters]"
+            outcomes.add(res)
+            sess.check("post", [], z3.BoolVal(res == expect), fn.lineno, label=f"accepted iff not blank, first character upper-case, later characters legal{tag}")
+            sess.check("post", [], z3.BoolVal(all(cs == want[role] for role, cs in asked)), fn.lineno, label=f"the sets tested are [A-Z] for the first and [a-z0-9_] for the later characters{tag}")
+            if not blank and first_in and later_in:
+                sess.check("post", [], z3.BoolVal([r for r, _ in asked] == ["first"] + ["later"] * n_later), fn.lineno, label=f"every character is tested{tag}")
+        sess.check("cover", [], z3.BoolVal(outcomes == {"accepted", "ValueError"}), 0, label="both outcomes reached")
+    return (f"{MODR}:_validate_element_symbol", MODR, "_validate_element_symbol", run)
+
+
+_targets_before_validate_symbol = targets
+
+
+def targets():      # noqa: F811
+    return _targets_before_validate_symbol() + [target_validate_symbol()]
